@@ -92,6 +92,10 @@ type FuncSpec struct {
 	LoopStyle    string               // "forFirst": early-exit range loops as Go.forFirst (β := result type); default Go.forRange
 	TailCalls    []string             // RetErr: `return f(..)` with f in this list is a tail call (not an error constructor)
 	StructLits   map[string]StructLit // Go composite literal type ("pkg.T{}") -> Lean structure instance with the kept fields
+	// PairStyle: the function inspects BOTH halves of Go's (value, error) results (`if payload != nil`): every
+	// `v, err := f(..)` becomes `let (v, err) := f ..` (the Lean twins return pairs of nil-able values), `if err != nil`
+	// is an ordinary conditional and `return v, err` a tuple (use with Ret: RetVal)
+	PairStyle bool
 }
 
 // StructLit: `&pkg.T{K: V, ...}` becomes `({ K := V, ... } : Lean)`, restricted to the fields in Keep.
@@ -171,7 +175,8 @@ func ignorableCall(c *ast.CallExpr) bool {
 		strings.HasSuffix(s, ".Debug"), strings.HasSuffix(s, ".Info"), strings.HasSuffix(s, ".Error") && strings.Contains(s, "ogger"),
 		s == "span.RecordError", s == "span.SetStatus",
 		strings.Contains(s, "Logger()."), s == "r.WithContext", s == "logging.FromContext",
-		s == "context.WithTimeout", s == "context.WithCancel", s == "context.WithDeadline", s == "cancel":
+		s == "context.WithTimeout", s == "context.WithCancel", s == "context.WithDeadline", s == "cancel",
+		s == "verifPoint": // schedule point of the verification harness (build tag verif): no effect on the decision
 		return true
 	}
 	return false
@@ -1274,6 +1279,16 @@ func (t *tr) block(stmts []ast.Stmt, k cont) string {
 					// the functional reading (`let`) is only sound for variables owned by this call
 					return t.bad("assignment to a variable declared outside the function", x)
 				}
+			}
+		}
+		// PairStyle: v, err := f(...)   ->   let (v, err) := f ...
+		if t.spec.PairStyle && len(x.Lhs) == 2 && len(x.Rhs) == 1 {
+			if call, ok := x.Rhs[0].(*ast.CallExpr); ok {
+				if ignorableCall(call) {
+					return rest()
+				}
+				a, b := t.ident(exprString(x.Lhs[0])), t.ident(exprString(x.Lhs[1]))
+				return "let (" + a + ", " + b + ") := " + t.expr(call) + ";\n" + t.pad() + rest()
 			}
 		}
 		// x, ok := e.(T)   type assertion: the model value carries a flag `is_T`
